@@ -624,33 +624,37 @@ func (d *Decimal) Modf(integ, frac *Decimal) {
 		return
 	}
 
+	// integ or frac may be d itself, so d's fields are read before an output that
+	// might alias it is written.
+	form := d.Form
 	neg := d.Negative
+	exponent := d.Exponent
 
 	// No fractional part.
-	if d.Exponent > 0 {
+	if exponent > 0 {
+		if integ != nil {
+			integ.Set(d)
+		}
 		if frac != nil {
-			frac.Form = d.Form
+			frac.Form = form
 			frac.Negative = neg
 			frac.Exponent = 0
 			frac.Coeff.SetInt64(0)
 		}
-		if integ != nil {
-			integ.Set(d)
-		}
 		return
 	}
 	nd := d.NumDigits()
-	exp := -int64(d.Exponent)
+	exp := -int64(exponent)
 	// d < 0 because exponent is larger than number of digits.
 	if exp > nd {
+		if frac != nil {
+			frac.Set(d)
+		}
 		if integ != nil {
-			integ.Form = d.Form
+			integ.Form = form
 			integ.Negative = neg
 			integ.Exponent = 0
 			integ.Coeff.SetInt64(0)
-		}
-		if frac != nil {
-			frac.Set(d)
 		}
 		return
 	}
@@ -661,9 +665,6 @@ func (d *Decimal) Modf(integ, frac *Decimal) {
 	var icoeff *BigInt
 	if integ != nil {
 		icoeff = &integ.Coeff
-		integ.Form = d.Form
-		integ.Exponent = 0
-		integ.Negative = neg
 	} else {
 		// This is the integ == nil branch, and we already checked if both integ and
 		// frac were nil above, so frac can never be nil in this branch.
@@ -671,14 +672,27 @@ func (d *Decimal) Modf(integ, frac *Decimal) {
 	}
 
 	if frac != nil {
-		icoeff.QuoRem(&d.Coeff, e, &frac.Coeff)
-		frac.Form = d.Form
-		frac.Exponent = d.Exponent
+		if frac == d {
+			// The remainder must not be written over the dividend while it is
+			// being divided.
+			var rem BigInt
+			icoeff.QuoRem(&d.Coeff, e, &rem)
+			frac.Coeff.Set(&rem)
+		} else {
+			icoeff.QuoRem(&d.Coeff, e, &frac.Coeff)
+		}
+		frac.Form = form
+		frac.Exponent = exponent
 		frac.Negative = neg
 	} else {
 		// This is the frac == nil, which means integ must not be nil since they both
 		// can't be due to the check above.
 		icoeff.Quo(&d.Coeff, e)
+	}
+	if integ != nil {
+		integ.Form = form
+		integ.Exponent = 0
+		integ.Negative = neg
 	}
 }
 
